@@ -2,6 +2,7 @@ import Req.Driver.Proto
 import Req.Pool.Lockset
 import Req.Pool.Monitor
 import Req.Pool.H1PoolLane
+import Req.Pool.Pairing
 /-! Driver lanes of C09. -/
 namespace Req.Driver.L.C09
 open Req.Proto
@@ -95,8 +96,75 @@ def lanePool : List String → String
     | _, _, _, _, _, _, _ => "bad-op"
   | _ => "bad-op"
 
+/-! ### `c09pair <kind>,<kind>,…` — sequential requests of one caller on one keep-alive host
+kinds: `NB` no body · `B` body read to EOF · `CH` chunked body read to EOF · `HD` HEAD ·
+`BX` body, caller closes early · `BK` body + `Connection: close` · `NBK` no body + close ·
+`BI` body, `CloseIdleConnections` called before the body is read to EOF.
+Answer per request `<conn>:<reused>:<events>` (joined with `;`): conn = sequence number of the
+connection used, events = `R` response returned to the caller, `P` PutIdleConn(nil), `p`
+PutIdleConn(error), `E` caller saw EOF, `C` caller closed early — in observation order. -/
+
+structure PairSim where
+  st : Req.Pool.Pairing.St := {}
+  conn : Nat := 1
+  fresh : Bool := true      -- the current connection has not carried a request yet
+  out : List String := []
+
+def pairReq (sim : PairSim) (r : Nat) (kind : String) : Option PairSim :=
+  -- (hasBody, keep, accept, eof)
+  let spec : Option (Bool × Bool × Bool × Bool) :=
+    match kind with
+    | "NB" => some (false, true, true, true)
+    | "HD" => some (false, true, true, true)
+    | "B" => some (true, true, true, true)
+    | "CH" => some (true, true, true, true)
+    | "BX" => some (true, true, true, false)
+    | "BK" => some (true, false, true, true)
+    | "NBK" => some (false, false, true, true)
+    | "BI" => some (true, true, false, true)
+    | _ => none
+  match spec with
+  | none => none
+  | some (hasBody, keep, accept, eof) =>
+    -- a closed (or never available) connection is replaced by a freshly dialled one
+    let (st0, conn, fresh) :=
+      if sim.st.avail then (sim.st, sim.conn, sim.fresh) else ({}, sim.conn + 1, true)
+    let s1 := Req.Pool.Pairing.step st0 (.start r)
+    let s2 := Req.Pool.Pairing.step s1 (.readHead hasBody keep true accept)
+    let s3 := if hasBody then Req.Pool.Pairing.step s2 (.bodyDone eof true accept) else s2
+    -- events of this request = what was added to the log, oldest first
+    let added := (s3.log.take (s3.log.length - st0.log.length)).reverse
+    let letters := added.filterMap fun e =>
+      match e with
+      | .head _ _ _ => some "R"
+      | .put => some "P"
+      | .putRefused => some "p"
+      | .eof _ => some "E"
+      | _ => none
+    -- the caller observes EOF only after the read loop has dealt with the connection
+    let evs :=
+      if hasBody then
+        if eof then "R" ++ String.join (letters.filter (fun l => l == "P" || l == "p")) ++ "E" else "RC"
+      else String.join letters
+    some { st := s3, conn := conn, fresh := false,
+           out := (toString conn ++ ":" ++ (if fresh then "0" else "1") ++ ":" ++ evs) :: sim.out }
+
+def lanePair : List String → String
+  | [kinds] =>
+    let ks := kinds.splitOn ","
+    let rec go (sim : PairSim) (r : Nat) : List String → Option PairSim
+      | [] => some sim
+      | k :: rest => match pairReq sim r k with
+        | none => none
+        | some sim' => go sim' (r + 1) rest
+    match go {} 0 ks with
+    | some sim => ";".intercalate sim.out.reverse
+    | none => "bad-op"
+  | _ => "bad-op"
+
 def lanes : List (String × (List String → String)) := [
   ("c09lockset", laneLockset),
+  ("c09pair", lanePair),
   ("c09pool", lanePool),
   ("c09mon", laneMon)
 ]
